@@ -194,7 +194,8 @@ def load_configuration(
     unmatched = config_data.keys() - {plugin.section for plugin in plugins}
     if unmatched:
         raise ConfigurationError(
-            where="root", what="unknown config sections %s" % ", ".join(unmatched)
+            where="root",
+            what="unknown config sections %s" % ", ".join(map(repr, unmatched)),
         )
     content = {}
     for plugin in plugins:
